@@ -677,6 +677,96 @@ func init() {
 	ext["(time.Duration).Seconds"] = func(fr *frame, a []value) value { return float64(0) }
 }
 
+// ---- flag / os models (C19) ----
+
+type flagState struct {
+	names []string
+	ptrs  map[string]*value
+	usage map[string]string
+	args  []string
+}
+
+func (i *interpreter) flagSet() *flagState {
+	if i.flags == nil {
+		i.flags = &flagState{ptrs: map[string]*value{}, usage: map[string]string{}}
+	}
+	return i.flags
+}
+
+func init() {
+	ext := externals
+	ext["flag.BoolVar"] = func(fr *frame, a []value) value {
+		fs := fr.i.flagSet()
+		name := cstr(fr, a[1])
+		p := a[0].(*value)
+		*p = a[2]
+		fs.names = append(fs.names, name)
+		fs.ptrs[name] = p
+		fs.usage[name] = cstr(fr, a[3])
+		return nil
+	}
+	ext["flag.Parse"] = func(fr *frame, a []value) value {
+		fs := fr.i.flagSet()
+		var args []string
+		for k, x := range fr.i.osArgs {
+			if k > 0 {
+				args = append(args, x.(string))
+			}
+		}
+		for len(args) > 0 {
+			s := args[0]
+			if len(s) < 2 || s[0] != '-' {
+				break
+			}
+			args = args[1:]
+			if s == "--" {
+				break
+			}
+			name := strings.TrimLeft(s, "-")
+			val := "true"
+			if eq := strings.Index(name, "="); eq >= 0 {
+				name, val = name[:eq], name[eq+1:]
+			}
+			p, ok := fs.ptrs[name]
+			if !ok {
+				fmt.Fprintf(&fr.i.path.errOut, "flag provided but not defined: -%s\n", name)
+				panic(exitPanic(2))
+			}
+			b, err := strconv.ParseBool(val)
+			if err != nil {
+				fmt.Fprintf(&fr.i.path.errOut, "invalid boolean value %q for -%s\n", val, name)
+				panic(exitPanic(2))
+			}
+			*p = b
+		}
+		fs.args = args
+		return nil
+	}
+	ext["flag.Args"] = func(fr *frame, a []value) value { return valStrs(fr.i.flagSet().args) }
+	ext["flag.NArg"] = func(fr *frame, a []value) value { return len(fr.i.flagSet().args) }
+	ext["flag.PrintDefaults"] = func(fr *frame, a []value) value {
+		fs := fr.i.flagSet()
+		names := append([]string(nil), fs.names...)
+		sort.Strings(names)
+		for _, n := range names {
+			fmt.Fprintf(&fr.i.path.errOut, "  -%s\n    \t%s\n", n, fs.usage[n])
+		}
+		return nil
+	}
+	ext["os.Exit"] = func(fr *frame, a []value) value {
+		panic(exitPanic(int(asInt64(fr.concrete(a[0], "os.Exit")))))
+	}
+	ext["os.Open"] = func(fr *frame, a []value) value {
+		name := cstr(fr, a[0])
+		content, ok := fr.i.files[name]
+		if !ok {
+			return tuple{(*value)(nil), fr.i.P.mkError("open " + name + ": no such file or directory")}
+		}
+		return tuple{ptrTo(nativeObj{&vfile{name: name, data: strValues(content)}}), iface{}}
+	}
+	ext["(*os.File).Close"] = func(fr *frame, a []value) value { return iface{} }
+}
+
 func (i *interpreter) eof() value {
 	for _, p := range i.prog.AllPackages() {
 		if p.Pkg.Path() == "io" {
